@@ -4,6 +4,9 @@ import engine
 from c02 import shipped_scenarios, README_QUERIES
 
 
+REPLAY = ("TraceSearch", engine.TRACE_CFG % '"C20"')
+
+
 def signature(ev):
     bad = [vq for vq, a in zip(ev["varqs"], ev["vars"]) if a != ev["mainans"]]
     kinds = set()
